@@ -74,21 +74,21 @@ CFG = {
     "SmootherTake": dict(dir="src/Smoother/SmootherTake", hdr="include/Smoother/SmootherTake/smootherTake.h",
                          build_macros=["UPDATE_MATRIX_ELEMENT", "COO_CSR_UPDATE", "NODE_BUILD_SMOOTHER_TAKE"],
                          apply_macros=["NODE_APPLY_ASC_ORTHO_CIRCLE_TAKE", "NODE_APPLY_ASC_ORTHO_RADIAL_TAKE"],
-                         build_file="buildMatrix.cpp", sweep="smoothing", extrapolated=False),
+                         build_file="buildMatrix.cpp", sweep="smoothing", sweeps=[("smoothing", 1)], extrapolated=False),
     "SmootherGive": dict(dir="src/Smoother/SmootherGive", hdr="include/Smoother/SmootherGive/smootherGive.h",
                          build_macros=["UPDATE_MATRIX_ELEMENT", "COO_CSR_UPDATE", "NODE_BUILD_SMOOTHER_GIVE"],
                          apply_macros=["NODE_APPLY_ASC_ORTHO_CIRCLE_GIVE", "NODE_APPLY_ASC_ORTHO_RADIAL_GIVE"],
-                         build_file="buildMatrix.cpp", sweep="smoothingSequential", extrapolated=False),
+                         build_file="buildMatrix.cpp", sweep="smoothingSequential", sweeps=[("smoothingSequential", 1), ("smoothingForLoop", 4)], extrapolated=False),
     "ExtrapolatedSmootherTake": dict(dir="src/ExtrapolatedSmoother/ExtrapolatedSmootherTake",
                                      hdr="include/ExtrapolatedSmoother/ExtrapolatedSmootherTake/extrapolatedSmootherTake.h",
                                      build_macros=["UPDATE_TRIDIAGONAL_ELEMENT", "UPDATE_DIAGONAL_ELEMENT", "COO_CSR_UPDATE", "NODE_BUILD_SMOOTHER_TAKE"],
                                      apply_macros=["NODE_APPLY_ASC_ORTHO_CIRCLE_TAKE", "NODE_APPLY_ASC_ORTHO_RADIAL_TAKE"],
-                                     build_file="buildAscMatrices.cpp", sweep="extrapolatedSmoothing", extrapolated=True),
+                                     build_file="buildAscMatrices.cpp", sweep="extrapolatedSmoothing", sweeps=[("extrapolatedSmoothing", 1)], extrapolated=True),
     "ExtrapolatedSmootherGive": dict(dir="src/ExtrapolatedSmoother/ExtrapolatedSmootherGive",
                                      hdr="include/ExtrapolatedSmoother/ExtrapolatedSmootherGive/extrapolatedSmootherGive.h",
                                      build_macros=["UPDATE_TRIDIAGONAL_ELEMENT", "UPDATE_DIAGONAL_ELEMENT", "COO_CSR_UPDATE", "NODE_BUILD_SMOOTHER_GIVE"],
                                      apply_macros=["NODE_APPLY_ASC_ORTHO_CIRCLE_GIVE", "NODE_APPLY_ASC_ORTHO_RADIAL_GIVE"],
-                                     build_file="buildAscMatrices.cpp", sweep="extrapolatedSmoothingSequential", extrapolated=True),
+                                     build_file="buildAscMatrices.cpp", sweep="extrapolatedSmoothingSequential", sweeps=[("extrapolatedSmoothingSequential", 1), ("extrapolatedSmoothingForLoop", 4)], extrapolated=True),
 }
 
 
@@ -190,7 +190,7 @@ def smoother_unit(cls, rules, hashes, nr, nt):
         return body
     solve_names = ["solveCircleSection", "solveRadialSection"]
     meths = [(cfg["dir"] + "/smootherSolver.cpp", m) for m in
-             ["applyAscOrthoCircleSection", "applyAscOrthoRadialSection"] + solve_names + [cfg["sweep"]]]
+             ["applyAscOrthoCircleSection", "applyAscOrthoRadialSection"] + solve_names + [sw for (sw, th) in cfg["sweeps"]]]
     text, em = units.emit_class_methods(cls, meths, rules, "R", hashes, pre_rewrite=pre, vec_names=("temp", "rhs", "x"),
                                         enum_types=("SmootherColor",), extra_vecs=("circle_solver_storage_1", "circle_solver_storage_2", "radial_solver_storage",
                                                                                      "solver_storage_1", "solver_storage_2", "solver_storage"))
